@@ -1,10 +1,47 @@
 import D2V.Model.Fmt
 import D2V.Model.FmtSem
-/-! C04 — Formatting preserves the diagram's meaning.  (see props/C04/entry.json for what is proved vs sampled) -/
+import D2V.Proofs.FmtFix
+import D2V.Proofs.FmtSemSound
+/-!
+C04 — Formatting preserves the diagram's meaning.
+
+The formatter performs two semantic rewrites of the AST (everything else is layout): `lowerKeywords` and
+`boardsLast` (D2V.Model.Fmt); on programs of the evaluator sub-fragment `boardsLast` is `FmtSem.blDecls`.
+`FmtSem.evalRoot` is the abstract specification of "which objects exist on which board" (tied to d2compiler.Compile
+by the correspondence stream of `./check C04`).
+
+* `boardsLast_sound_partial`: moving board blocks last (and dropping empty ones) preserves the evaluation whenever no
+  non-board declaration follows a non-empty scenarios / steps block in the same board root (`okL`); layers blocks
+  may stand anywhere.
+* The unrestricted statement is false: `C04_cx_board_order`.  Keyword lower-casing of VALUES changes labels:
+  `C04_cx_value_case`.  Both are replayed on the implementation by the check's corpus.
+-/
 namespace D2V.FmtSem
 open D2V.Fmt
 
+/-- the unrestricted statement (stated goal; false for the unchanged formatter) -/
+def C04_boards_full_statement : Prop := ∀ p : List Decl, evalRoot (blDecls p) = evalRoot p
+
+theorem boardsLast_sound_partial (p : List Decl) (h : okL p = true) : evalRoot (blDecls p) = evalRoot p := by
+  unfold evalRoot evalBoard blDecls
+  rw [evalDecls_bl p _ h]
+
+/-- the same inside any board, whatever it inherits -/
+theorem boardsLast_sound_board (base : List OPath) (p : List Decl) (h : okL p = true) :
+    evalBoard base (blDecls p) = evalBoard base p := by
+  unfold evalBoard blDecls
+  rw [evalDecls_bl p _ h]
+
 private def nm (s : String) : Name := s.toList
+
+/-- `layers: {l: {q}}⏎a: {b}⏎scenarios: {s: {y}}⏎steps: {}` — a layers block first, a scenarios block last -/
+def exOk : List Decl :=
+  [.boards .layers [.board (nm "l") [.obj [nm "q"] []]], .obj [nm "a"] [.obj [nm "b"] []],
+   .boards .scenarios [.board (nm "s") [.obj [nm "y"] []]], .boards .steps []]
+
+/-- the hypothesis is satisfiable by a program whose layers block really moves -/
+example : okL exOk = true := by decide
+example : (evalRoot (blDecls exOk)).scenarioObjs = [(nm "s", [[nm "a"], [nm "a", nm "b"], [nm "y"]])] := by decide
 
 /-- `scenarios: {s: {y}}` then `x`: in source order scenario `s` does not see `x`;
     after the formatter moved the board block last it does. -/
@@ -21,4 +58,70 @@ theorem C04_cx_board_order : evalRoot (blDecls cxBoardOrder) ≠ evalRoot cxBoar
   rw [cx_board_order_before, cx_board_order_after] at this
   exact absurd this (by decide)
 
+theorem C04_boards_full_statement_false : ¬ C04_boards_full_statement := fun h => C04_cx_board_order (h _)
+
+/-- the excluded region is exactly what the counterexample violates -/
+example : okL cxBoardOrder = false := by decide
+
+/-! ### keyword lower-casing -/
+
+/-- `x: Label` -/
+def cxValueCase : N :=
+  .map false [.mnode false true (.key { amp := 0, key := some [⟨.u, "x".toList, "x".toList⟩], src := none, hops := [], eidx := .none, ekey := none }
+    none (.scalar (.str ⟨.u, "Label".toList, "Label".toList⟩)))]
+
+/-- the printer lower-cases the unquoted VALUE `Label` because it equals a reserved keyword up to case:
+    the label of `x` is no longer the text the user wrote -/
+theorem C04_cx_value_case :
+    labelsOf (lowerKeywords cxValueCase) = [("x".toList, "label".toList)] ∧
+    labelsOf cxValueCase = [("x".toList, "Label".toList)] := by decide
+
+/-- what the re-parse of the formatted text holds is the same rewrite (layout aside) -/
+theorem C04_cx_value_case_reparsed : labelsOf (normFile cxValueCase) = [("x".toList, "label".toList)] := by decide
+
 end D2V.FmtSem
+
+namespace D2V.Fmt
+
+theorem normStr_idem (s : Str) : normStr (normStr s) = normStr s := by
+  obtain ⟨q, raw, val⟩ := s
+  cases q <;> simp only [normStr]
+  by_cases h : isReserved (lower raw) = true
+  · simp [h, isReserved_lower_fixed h]
+  · simp [h]
+
+theorem normPath_idem (p : Path) : normPath (normPath p) = normPath p := by
+  simp [normPath, List.map_map, Function.comp_def, normStr_idem]
+
+theorem normScalar_idem (s : Scalar) : normScalar (normScalar s) = normScalar s := by
+  cases s <;> simp [normScalar, normStr_idem]
+
+theorem normHead_idem (h : KeyHead) : normHead (normHead h) = normHead h := by
+  obtain ⟨amp, key, src, hops, eidx, ekey⟩ := h
+  simp only [normHead, Option.map_map, List.map_map]
+  have hp : (normPath ∘ normPath) = normPath := by funext p; simp [normPath_idem]
+  have hh : (normHop ∘ normHop) = normHop := by
+    funext x; obtain ⟨sa, da, dst⟩ := x; simp [normHop, normPath_idem]
+  simp [hp, hh]
+
+mutual
+  /-- keyword lower-casing is idempotent on every tree -/
+  theorem lowerKeywords_idem : ∀ n : N, lowerKeywords (lowerKeywords n) = lowerKeywords n
+    | .absent => by simp [lowerKeywords]
+    | .scalar s => by simp [lowerKeywords, normScalar_idem]
+    | .sub sp p => by simp [lowerKeywords, normPath_idem]
+    | .imp sp p => by simp [lowerKeywords, impPath_normPath_impPath, normPath_idem]
+    | .arr one items => by simp [lowerKeywords, lowerKeywordsL_idem items]
+    | .map one nodes => by simp [lowerKeywords, lowerKeywordsL_idem nodes]
+    | .item b v => by simp [lowerKeywords, lowerKeywords_idem v]
+    | .mnode b l v => by simp [lowerKeywords, lowerKeywords_idem v]
+    | .key h p v => by
+      simp only [lowerKeywords, normHead_idem, lowerKeywords_idem v, Option.map_map]
+      congr 1
+      cases p <;> simp [normScalar_idem]
+  theorem lowerKeywordsL_idem : ∀ l : List N, lowerKeywordsL (lowerKeywordsL l) = lowerKeywordsL l
+    | [] => by simp [lowerKeywordsL]
+    | x :: xs => by simp [lowerKeywordsL, lowerKeywords_idem x, lowerKeywordsL_idem xs]
+end
+
+end D2V.Fmt
